@@ -11,7 +11,7 @@ from nutree.typed_tree import ANY_KIND
 LEVEL = "proof"
 TRUSTED = []
 ASSUMPTIONS = ["node identities are unique within a tree (C01)"]
-KINDS = [None, "kind-a", "kind-b", "kind-c", "zzz"]
+KINDS = [None, "kind-a", "kind-b", "kind-c", "zzz", "kind-a-x", "kind"]   # absent kinds: unrelated, a superstring and a substring of present ones
 
 
 def long_kinds(spec):
@@ -79,9 +79,50 @@ def cmp(out, case, what, impl, model, spec):
             out.disagree(dict(case, query=k), f"{what} {k} = {v!r}, model {model[k]!r}")
 
 
-def check_tree(ctx, out, spec, tag, levelorder=False):
+def mutate(tree, rng, pool, step):
+    """one public mutation of a typed tree that was queried before (a result memoised by an earlier query must not survive it)"""
+    nodes = list(tree)
+    if not nodes:
+        return "none"
+    n = rng.choice(nodes)
+    kind = ["remove", "sort", "move", "add", "remove_children", "set_data"][step % 6]
+    try:
+        if kind == "remove":
+            n.remove()
+        elif kind == "sort":
+            (n.parent or tree.system_root).sort_children(key=lambda x: str(x.data), reverse=True)
+        elif kind == "move":
+            tgt = rng.choice(nodes)
+            if tgt is not n and not tgt.is_descendant_of(n):
+                n.move_to(tgt, before=rng.choice([None, True, 0]))
+        elif kind == "add":
+            n.add(pool.objs[rng.choice([2, 3, 4, 7, 8])], kind=rng.choice(["kind-a", "kind-b", "kind-c"]), before=rng.choice([None, True, 0]))
+        elif kind == "remove_children":
+            n.remove_children()
+        else:
+            n.set_data(pool.objs[rng.choice([2, 3, 4])])
+    except Exception as e:  # noqa  (refused: unique constraint etc.)
+        return kind + ":" + type(e).__name__
+    return kind
+
+
+def mut_case(ctx, out, spec, seed, steps, k=0):
+    """query, then `steps` times (mutate, query) on one tree object; all choices derive from `seed` (replayable)"""
+    import random
+
+    rng = random.Random(seed)
+    tree = adapter.build(long_kinds(spec), ctx.pool, typed=True)
+    log = []
+    check_tree(ctx, out, {"mut": dict(spec=spec, seed=seed, steps=0, k=k, log=[])}, "mut", tree=tree)
+    for step in range(steps):
+        log.append(mutate(tree, rng, ctx.pool, k + step))
+        check_tree(ctx, out, {"mut": dict(spec=spec, seed=seed, steps=step + 1, k=k, log=list(log))}, "mut", tree=tree)
+
+
+def check_tree(ctx, out, spec, tag, levelorder=False, tree=None):
     # levelorder: same tree, created out of document order (registry order != pre-order)
-    tree = (adapter.build_levelorder if levelorder else adapter.build)(long_kinds(spec), ctx.pool, typed=True)
+    if tree is None:
+        tree = (adapter.build_levelorder if levelorder else adapter.build)(long_kinds(spec), ctx.pool, typed=True)
     ser = adapter.Serials()
     ser.by_obj[id(tree.system_root)] = 0
     ser.keep.append(tree.system_root)
@@ -140,6 +181,15 @@ def run(ctx):
                 check_tree(ctx, out, gen.label_forest(shape, labels), "ex")
     out.exhaustive = True
     out.extra["exhaustive_scope"] = f"all ordered forests with <= {n_ex} nodes x all kind assignments over 3 kinds"
+    # query - mutate - query: the same tree OBJECT is queried again after public mutations (remove, sort, move, add,
+    # remove_children, set_data): every answer must follow from the child lists as they are NOW
+    for k in range(120 if ctx.thorough else 30):
+        n = ctx.rng.randrange(3, 9)
+        shape = gen.random_shape(ctx.rng, n, deep_bias=0.3)
+        cnt = itertools.count()
+        spec = gen.label_forest(shape, ({"a": next(cnt) % 12, "k": ctx.rng.choice("abc"), "did": 8000 + next(cnt)} for _ in range(n)))
+        mut_case(ctx, out, spec, ctx.rng.randrange(1 << 30), 5, k)
+        out.dist["query_mutate_query"] += 1
     for _ in range(400 if ctx.thorough else 80):
         n = ctx.rng.randrange(n_ex + 1, 14)
         shape = gen.random_shape(ctx.rng, n, deep_bias=0.3)
@@ -161,5 +211,10 @@ def replay(ctx, rp):
     from props.c10 import tuplify_d
 
     out = core.Outcome()
-    check_tree(ctx, out, tuplify_d(rp["case"]["spec"]), "replay", levelorder=bool(rp["case"].get("levelorder")))
+    sp = rp["case"]["spec"]
+    if isinstance(sp, dict) and "mut" in sp:
+        m = sp["mut"]
+        mut_case(ctx, out, tuplify_d(m["spec"]), m["seed"], m["steps"], m.get("k", 0))
+    else:
+        check_tree(ctx, out, tuplify_d(sp), "replay", levelorder=bool(rp["case"].get("levelorder")))
     return dict(failures=out.oracle_failures[:8], disagreements=out.disagreements[:5], property_holds=not out.oracle_failures)
